@@ -15,6 +15,9 @@ ASSUMPTIONS = ['the helper last_char_offset(&str) returns the start of the last 
                'winnow never returns ErrMode::Incomplete for a complete (&str) stream',
                'a String is identified with the slice it was copied from (same allocation, offset, length)']
 CORPUS_V = ['1.2.900719925474100', '1.2.', 'foo', '1.2.3.4.5.6' * 0 + '1.', '', 'v', '1.2.x', ' 1.2.99999999999999999999999', 'é1.2.3', '1.2.3\n4.x', '1' * 300, 'a' * 257, '1.2.3-é', '1.2.3-' + 'a' * 255 + 'é', '1.0.0-' + 'a' * 260 + '\nb']
+# (text, expected offset of the rejected component, expected kind prefix): the component is not at the end of the string
+NUMBER_CASES = [('900719925474100.1.1', 0, 'MaxIntError(900719925474100)'), ('1.900719925474100.1', 2, 'MaxIntError(900719925474100)'), ('1.2.900719925474100-rc.1', 4, 'MaxIntError(900719925474100)'),
+                ('1.2.99999999999999999999+build', 4, 'ParseIntError'), ('v 12.99999999999999999999.3', 5, 'ParseIntError'), ('99999999999999999999.0.0', 0, 'ParseIntError')]
 CORPUS_R = ['foo', '', '>=1.2.3 <1.0.0', 'é', '~1.y', '>', '1.2.900719925474100', '^1.2.99999999999999999999999', 'foo || bar', '1' * 300]
 
 
@@ -157,12 +160,27 @@ def number_group(s):
     ein = err.fs[err.ty.index('input')]
     same = lambda a, b: AND(a.fs[0].t == b.fs[0].t, a.fs[1].t == b.fs[1].t, a.fs[2].t == b.fs[2].t)
     MAXS = 900719925474099
+
+    def dec(m):
+        return {'abstract': 'number::{closure#0} mispositions or misclassifies an integer error'}
+
+    def replay(case):
+        prog = [{'id': 'n%d' % i, 'op': 'version', 'text': t} for i, (t, _, _) in enumerate(NUMBER_CASES)]
+
+        def judge(native):
+            bad = []
+            for i, (t, off, kind) in enumerate(NUMBER_CASES):
+                x = native.get('n%d' % i) or {}
+                if x.get('ok') is not False or x.get('offset') != off or not str(x.get('kind', '')).startswith(kind):
+                    bad.append('Version::parse(%r): offset()=%r kind=%s (expected offset %d, %s)' % (t, x.get('offset'), x.get('kind'), off, kind))
+            return ('confirmed' if bad else 'mismatch'), '; '.join(bad[:3]) or 'no corpus string reproduces the abstract counterexample'
+        return prog, judge
     s.cover(h, 'value just above the bound', [is_variant(pr, 'Ok'), val == MAXS + 1])
     s.prove(h, 'number: Ok(n) only for n <= MAX_SAFE_INTEGER, and then n is the parsed value', [is_variant(r, 'Ok')], AND(is_variant(pr, 'Ok'), payload(r, 'Ok')[0].t == val, z3.ULE(val, MAXS)))
     s.prove(h, 'number: a value above MAX_SAFE_INTEGER => MaxIntError(value) positioned at the start of the component', [is_variant(pr, 'Ok'), z3.UGT(val, MAXS)],
-            AND(is_variant(r, 'Err'), kind_some, is_variant(kind, 'MaxIntError'), payload(kind, 'MaxIntError')[0].t == val, same(ein, copied)))
+            AND(is_variant(r, 'Err'), kind_some, is_variant(kind, 'MaxIntError'), payload(kind, 'MaxIntError')[0].t == val, same(ein, copied)), decode=dec, replay=replay)
     s.prove(h, 'number: u64 overflow (str::parse fails) => ParseIntError positioned at the start of the component', [is_variant(pr, 'Err')],
-            AND(is_variant(r, 'Err'), kind_some, is_variant(kind, 'ParseIntError'), same(ein, copied)))
+            AND(is_variant(r, 'Err'), kind_some, is_variant(kind, 'ParseIntError'), same(ein, copied)), decode=dec, replay=replay)
 
 
 def corpus_group(s):
@@ -204,6 +222,13 @@ def corpus_group(s):
                 probs.append('kind=%s expected %s' % (x.get('kind'), expect_kind[t]))
             if probs:
                 bad.append('%s::parse(%r): %s' % ('Version' if pre == 'v' else 'Range', t[:30], ', '.join(probs)))
+    prog2 = [{'id': 'n%d' % i, 'op': 'version', 'text': t} for i, (t, _, _) in enumerate(NUMBER_CASES)]
+    nat2 = rp.run(s.binary, [prog2])[0]
+    for i, (t, off, kind) in enumerate(NUMBER_CASES):
+        x = nat2.get('n%d' % i) or {}
+        n += 1
+        if x.get('ok') is not False or x.get('offset') != off or not str(x.get('kind', '')).startswith(kind) or x.get('input') != t:
+            bad.append('Version::parse(%r): offset()=%r kind=%s input()=%r (expected offset %d, %s)' % (t, x.get('offset'), x.get('kind'), (x.get('input') or '')[:20], off, kind))
     s.validated += n
     s.add(ob='corpus of rejected strings: input(), offset(), location(), kind, diagnostic rendering (native spot check, %d errors)' % n, mode='native', solver_s=0.0, kind='prove',
           verdict='violated' if bad else 'holds', detail='; '.join(bad[:4]), case={'corpus': n}, program=prog if bad else None, native=None)
